@@ -28,7 +28,7 @@ def run(ctx):
         tr, summ = nc.run_scenarios(ctx, pools["pool_thorough.json"], scen_file=p)
     else:
         pool = pools["pool_quick.json" if quick else "pool_thorough.json"]
-        tr, summ = nc.run_scenarios(ctx, pool, n=4000 if quick else 300000, faults=False, reps=1 if quick else 4)
+        tr, summ = nc.run_scenarios(ctx, pool, n=8000 if quick else 300000, faults=False, reps=1 if quick else 4)
     rej, r = nc.validate(ctx, tr)
     ctx.log("validated %d traces / %d events: %d rejected (TLC %d states, %.1fs)" % (
         summ["traces"], summ["events"], len(rej), r.distinct, r.wall))
@@ -40,9 +40,9 @@ def run(ctx):
         "trace_events": summ["events"], "trace_states": r.distinct,
         "scenarios_run": summ["evaluations"], "distinct_traces": summ["distinct"],
         "rejected": len(rej), "binding_selftest_mutants_rejected": nself,
-        "design_check": ("MCNegotiation: pool of 10 feature kinds (incl. a voluntary feature reporting Ready, a feature prohibiting its own necessary bit), configurations <= 2 kinds, both roles, 3 initial states, <= 2 lists of <= 2 entries, faults and cancellation" if quick else
+        "design_check": ("MCNegotiation: pool of 10 feature kinds (incl. a voluntary feature reporting Ready, a feature prohibiting its own necessary bit), configurations <= 2 kinds, both roles, 3 initial states, <= 2 lists of <= 2 entries, failing List / Parse / Negotiate steps, faults and cancellation" if quick else
                          "MCNegotiation, three runs: small pool (10 kinds) x <= 2 kinds x <= 3 lists; larger pool x <= 2 kinds x <= 3 lists; small pool x <= 3 kinds x <= 3 lists; both roles, 3 initial states, lists of <= 2 entries, faults and cancellation"),
         "samples": summ["samples"][:2],
-        "rule": "scenarios = seeded random (configuration <= 4 kinds from the TLC-emitted pool, role, initial bits, header script, advertisement lists with repeats/unknown names, selection script, failing features, tee); a trace is distinct if its event sequence differs",
+        "rule": "scenarios = seeded random (configuration <= 4 kinds from the TLC-emitted pool, role, initial bits, header script, advertisement lists with repeats/unknown names, selection script, failing steps - each of a feature's callbacks List / Parse / Negotiate may report an error, before or after its I/O -, tee, Negotiator value used before); the lazy peer selects as soon as the session waits after answering the header, also when the advertisement was never finished; a trace is distinct if its event sequence differs",
     }, assumptions=["instrumented StreamFeature values stand for arbitrary features (masks, mandatory, restart, negotiable as in NegPool.tla)",
                     "a failed establishment may carry the Ready bit only if a successfully executed step of that stream reported it (C04_ErrNotReady)"])
